@@ -224,7 +224,8 @@ def det_shard(args):
     return idx, rc, logf
 
 def c14_runtime(tier, seed):
-    """every history is executed three times in one process and (shard 0..3) again in a second process;
+    """every history is executed three times in one process and (shard 0..3) again in a second process, which also
+    executes every message first on a discarded branch of the state;
     the complete logs (results, ordered transfers, hook calls, event-stream hashes, full state dumps) must be identical"""
     from multiprocessing import Pool
     key = (repo_hash(), verif_hash(), tier, seed)
@@ -260,14 +261,23 @@ def c14_runtime(tier, seed):
     cross = 0
     for idx, first, n, ops, sd, od, prof in jobs[:4]:
         logf2 = os.path.join(outdir, "det%02d.second.log" % idx)
-        sh("timeout 3000 %s -n %d -ops %d -seed %d -first %d -profile %s -out %s > /dev/null 2>&1" % (
+        # the second process also executes every message first on a discarded branch of the state (CheckTx / gas
+        # estimation on a node): nothing of that may show
+        sh("timeout 3000 %s -sim -n %d -ops %d -seed %d -first %d -profile %s -out %s > /dev/null 2>&1" % (
             os.path.join(BUILD, "harness"), n, ops, sd, first, prof, logf2), cwd=BUILD)
         a = [l for l in open(os.path.join(outdir, "det%02d.log" % idx), errors="replace") if not l.startswith("NONDET") and not l.startswith("WIRING")]
         b = list(open(logf2, errors="replace"))
         cross += 1
         if a != b:
             i = next((k for k in range(min(len(a), len(b))) if a[k] != b[k]), min(len(a), len(b)))
-            nondet.append(dict(hist="?", run="second-process", step="?", first=a[i].strip() if i < len(a) else "", other=b[i].strip() if i < len(b) else "", log=logf2))
+            hist, step, lastop = "?", -1, ""
+            for l in a[:i + 1]:
+                if l.startswith("HIST"):
+                    hist, step = parse_kv_line(l).get("id", "?"), -1
+                elif l.startswith("OP "):
+                    step += 1; lastop = l.strip()
+            nondet.append(dict(hist=hist, run="second-process-with-simulations", step=str(max(step, 0)), op=lastop[3:], first=a[i].strip() if i < len(a) else "", other=b[i].strip() if i < len(b) else "",
+                               log=os.path.join(outdir, "det%02d.log" % idx)))
     log("determinism: %d histories x3 in-process, %d shards re-run in a second process, %d differences, %.1fs" % (hists, cross, len(nondet), time.time() - t))
     R = dict(nondet=nondet, errors=errors, histories=hists, bidder_transfers=settlements, cross=cross, outdir=outdir,
              wiring_probes=len(wiring), wiring_order=(wiring[0].get("first") if wiring else ""))
